@@ -6,6 +6,7 @@ package main
 // entry used by a check is reported in that check's evidence.
 
 import (
+	"sort"
 	"fmt"
 	"go/token"
 	"go/types"
@@ -928,7 +929,6 @@ func init() {
 	})
 	reg("(*flag.FlagSet).SetOutput", nothing)
 	regVar := func(ex *Exec, fr *Frame, st *State, reach string, a []Val, sig *types.Signature, pos token.Pos) Val {
-		fsr := a[0].term()
 		target := a[1]
 		if target.LV == nil && len(target.L) == 2 {
 			// flag.Value interface holding a pointer
@@ -941,8 +941,14 @@ func init() {
 		lv := ex.ptrLV(target)
 		// one registry for all flag sets of the unit: the term naming the set differs
 		// between loads, and havocking the locations of every set is the sound side
-		_ = fsr
 		ex.flagRegs["*"] = append(ex.flagRegs["*"], lv)
+		name := ""
+		if len(a) > 2 {
+			if lit, ok := ex.litOf(a[2].term()); ok {
+				name = lit
+			}
+		}
+		ex.flagNames = append(ex.flagNames, name)
 		return Val{T: sig.Results()}
 	}
 	reg("(*flag.FlagSet).Var", regVar)
@@ -952,10 +958,26 @@ func init() {
 		if len(ex.flagRegs["*"]) == 0 {
 			panic(unsupported("flag.FlagSet.Parse on a set whose registrations are not visible"))
 		}
-		for _, lv := range ex.flagRegs["*"] {
-			ex.store(st, lv, ex.freshVal(st, lv.T, "flagval"))
+		// each registered flag was given on the line or not (ghost "set"); the
+		// location of a flag that was not given keeps its value, the location of one
+		// that was given holds whatever its Set calls left there
+		ex.flagSet = map[string]string{}
+		for i, lv := range ex.flagRegs["*"] {
+			name := ex.flagNames[i]
+			set := ex.sc.fresh("flagset_"+sanitize(name), sBool)
+			if name != "" {
+				ex.flagSet[name] = set
+			}
+			old := ex.load(st, lv)
+			nw := ex.freshVal(st, lv.T, "flagval")
+			if len(old.L) == len(nw.L) {
+				for j := range nw.L {
+					nw.L[j] = mkIte(set, nw.L[j], old.L[j])
+				}
+			}
+			ex.store(st, lv, nw)
 		}
-		ex.assumedUsed["flag.FlagSet.Parse: calls only the registered Values' Set methods (havoc of registered locations); NArg() is the number of arguments it did not consume"] = true
+		ex.assumedUsed["flag.FlagSet.Parse: calls only the registered Values' Set methods, and only for flags given on the line (a flag that is not given leaves its location unchanged); Visit calls its function once for each flag that was given, in name order; NArg() is the number of arguments Parse did not consume"] = true
 		left := ex.sc.fresh("flag_leftover", sInt)
 		ex.sc.assert(mkCmp(">=", left, "0"))
 		ex.compSort["flagleft"] = sInt
@@ -971,6 +993,24 @@ func init() {
 		cl := a[1].Fn
 		if cl == nil {
 			panic(unsupported("FlagSet.Visit with unknown function"))
+		}
+		if len(ex.flagSet) > 0 && len(ex.flagSet) == len(ex.flagNames) {
+			// the registrations and the Parse call are visible: Visit calls the function
+			// once for each flag that was given, in lexical order of the names
+			names := sortedKeysS(ex.flagSet)
+			ft := cl.Fn.Signature.Params().At(0).Type().(*types.Pointer).Elem()
+			for _, name := range names {
+				r := ex.newRef(st, "flag")
+				fv := ex.zeroVal(ft)
+				fv.L[0] = ex.strConst(name) // Flag.Name is the first field
+				ex.store(st, &LValue{Kind: lvHeap, Root: ft, Ref: r, T: ft}, fv)
+				s2 := st.clone()
+				r2 := ex.sc.define("visit_run", sBool, mkAnd(reach, ex.flagSet[name]))
+				ex.callFunction(fr, s2, r2, cl.Fn, cl.Bindings, []Val{{T: types.NewPointer(ft), L: []string{r}}}, cl.Fn.Signature, pos)
+				_, merged := ex.mergeStates([]inEdge{{ex.sc.define("visit_skip", sBool, mkAnd(reach, mkNot(ex.flagSet[name]))), st.clone()}, {r2, s2}}, "visit")
+				*st = *merged
+			}
+			return Val{T: sig.Results()}
 		}
 		// discover what the callback writes, then havoc exactly that (the callback
 		// runs zero or more times with arbitrary *flag.Flag arguments)
@@ -1383,4 +1423,13 @@ func (ex *Exec) interference(st *State, lv *LValue) {
 		return
 	}
 	ex.store(st, lv, ex.freshVal(st, lv.T, "interf"))
+}
+
+func sortedKeysS(m map[string]string) []string {
+	out := make([]string, 0, len(m))
+	for k := range m {
+		out = append(out, k)
+	}
+	sort.Strings(out)
+	return out
 }
